@@ -448,9 +448,10 @@ def gen_simple(r, rooms_mode=1, big=False):
         c = {"name": r.choice(["Kurs", "Çay", "Ωmega", "Tanz", "Mac's \"Kurs\"", "C:\\Kurs", "Töpfern \u2013 Anfänger", "Cafe\u0301 \u00b7 Klatsch"]) + f" {i}", "num_max": mx, "num_min": mn, "instructors": []}
         if r.random() < 0.5:
             # incl. courses that need no room at all (factor 0: an outdoor course still takes place)
-            c["room_factor"] = r.choice([1.0, 1.5, 2.0, 2.5, 0.5, 1.2, 0.0, 0.25])
+            # (also as people write them: integer literals — serde's f32 visitor takes them without a detour via f64)
+            c["room_factor"] = r.choice([1.0, 1.5, 2.0, 2.5, 0.5, 1.2, 0.0, 0.25, 1, 2, 3, 0])
         if r.random() < 0.4:
-            c["room_offset"] = r.choice([0.0, 1.0, 2.5, 0.5])
+            c["room_offset"] = r.choice([0.0, 1.0, 2.5, 0.5, 0, 1, 4, 12])
         if i == 0 and nc >= 2 and np_ % 7 == 3:
             # numbers at the edge of the float → size conversion: a negative effective size counts as 0, an
             # infinite one as "larger than every room"
